@@ -13,7 +13,10 @@ GARBAGE = [b'diff --git a/x b/x', b'index 123..456 100644', b'--- a/file',
            b'+++ b/file', b'Index: file', b'====', b'', b'garbage',
            b'@@ not a header', b'@@@ -1 +1 @@@', b'@@ -1 +1', b'-stray',
            b'+stray', b' stray context', b'\\ No newline at end of file',
-           b'Binary files differ', b'@@ -a,b +c,d @@']
+           b'Binary files differ', b'@@ -a,b +c,d @@',
+           # Subversion property sections look like hunks but are not
+           b'Property changes on: x', b'## -1,2 +1,2 ##', b'## -0,0 +1 ##',
+           b'\\ No newline at end of property']
 
 STRICT_GARBAGE = [g for g in GARBAGE]
 
@@ -146,7 +149,10 @@ ILLEGAL = [b'', b'x', b'xyz', b'@@ garbage', b'@@', b'\\ No newline',
            MARKER + b'.orig', MARKER + b'x', MARKER[:-1], b'x' + MARKER,
            b'\\ no newline at end of file', b'x' * 1025, b'y' * 5000,
            b'@@ -1 +1 @@' + b'z' * 1100 + b' not a header @',
-           b'%d %s %(line)r']
+           b'%d %s %(line)r',
+           # marker look-alikes: localised, truncated, other wording
+           b'\\ Kein Zeilenumbruch am Dateiende.', b'\\ ',
+           b'\\ No newline at end of property', b'\\ No newline at end']
 
 
 def damages(rng, lines, spans, expected, ignore_garbage):
